@@ -234,6 +234,55 @@ fn check_tape(tape: &[u8], gates: &Gates, codes: &[String], stats: &mut Stats, c
             }
         }
     }
+    // (b3) the set split between explicit file arguments and a directory, in either order: the files
+    // named before (or after) the directory belong to the set as much as those inside it
+    if files.len() >= 2 && choice.ratio(1, 2) {
+        let k = 1 + choice.below(files.len() - 1);
+        let part = dir.path.join("part");
+        std::fs::create_dir_all(&part).unwrap();
+        let mut outside = vec![];
+        for (i, f) in files.iter().enumerate() {
+            if i < k {
+                let p = dir.path.join(format!("out_{}", crate::drive::set_file_name(i)));
+                std::fs::write(&p, f.text.as_bytes()).unwrap();
+                outside.push(p.to_string_lossy().to_string());
+            } else {
+                std::fs::write(part.join(crate::drive::set_file_name(i)), f.text.as_bytes()).unwrap();
+            }
+        }
+        let d = part.to_string_lossy().to_string();
+        let orders: Vec<Vec<String>> = vec![
+            outside.iter().cloned().chain(std::iter::once(d.clone())).collect(),
+            std::iter::once(d.clone()).chain(outside.iter().cloned()).collect(),
+        ];
+        for ord in orders {
+            let mut args = vec!["check".to_string()];
+            args.extend(ord.clone());
+            if let (Some(o), Some(b)) = (observe_check(&args), &base) {
+                if counting {
+                    stats.class("check.split-files-and-directory");
+                }
+                channels_agree(&o, codes, "check <files> <dir>").map_err(|(k2, d2)| fail("channels", &k2, d2))?;
+                if (o.status == Some(0)) != (b.0 == Some(0)) {
+                    return Err(fail(
+                        "split",
+                        "exit-differs",
+                        format!("the set given as {} explicit file(s) {} a directory with the other {} exits {:?}; all files explicit: {:?}", k, if ord[0] == d { "after" } else { "before" }, files.len() - k, o.status, b.0),
+                    ));
+                }
+                let mut kd: Vec<(String, usize, usize)> = keyed(&o.diags).iter().map(|x| (x.0.clone(), x.2, x.3)).collect();
+                kd.sort();
+                let mut kb: Vec<(String, usize, usize)> = b.1.iter().map(|x| (x.0.clone(), x.2, x.3)).collect();
+                kb.sort();
+                // (with several faulty files a rule reports the first one it meets: only sets with at
+                // most one faulty file are compared diagnostic by diagnostic)
+                let faulty_files = files.iter().filter(|f| f.class != "valid").count();
+                if faulty_files <= 1 && kd != kb {
+                    return Err(fail("split", "diagnostics-differ", format!("split set reports {:?}; all files explicit: {:?}", kd, kb)));
+                }
+            }
+        }
+    }
     // (c) directory + extra file outside it
     if choice.flag() {
         let extra = dir.write("extra.st", b"PROGRAM extra_prog\nVAR\nextra_v : INT;\nEND_VAR\nextra_v := 1;\nEND_PROGRAM\n").to_string_lossy().to_string();
